@@ -29,6 +29,11 @@ Oracles (all written without using the code under test):
      built-in files are never touched: their content is mutated *as nunavut reads it*, by wrapping
      DSDLTemplateLoader.get_source from the harness side (the same wrapper records which files are loaded).
 
+User template directories (--templates, --support-templates) are copies of the built-in ones plus non-.j2 resource
+files reached by literal include, by a computed name (T.short_name / a variable), through the list form of include,
+by import / from-import, from another resource, in sub-directories, and files nobody uses; and a DelimitedType.j2
+that renders nothing for the types with minor version 1 (the empty output must still be created and listed).
+
 Owned nondeterminism: the wall clock (nunavut.jinja.datetime and the time seen by gzip are replaced by constants);
 every configuration runs the unmutated real run twice and a difference between the two is a harness error.
 """
@@ -111,6 +116,55 @@ DSDL_SETS: typing.Dict[str, typing.Tuple[str, typing.List[str], typing.Dict[str,
 }
 
 NAMESPACE_TEMPLATE_FOR_C = "// C08 namespace file for {{ T.full_name }}\n"
+
+# ---- what a user template directory may legitimately contain besides *.j2 files: resources that templates pull in.
+# The template every type of the language is rendered through gets TPL_SNIPPET appended (T is in scope there).
+TPL_HOST = {"c": "base.j2", "cpp": "base.j2", "py": "base.j2", "html": "type_base.j2"}
+TPL_SNIPPET = (
+    "\n{#- C08: resources of a user template directory, reached in every way jinja offers -#}\n"
+    '{% include "c08res/literal.inc" %}\n'
+    '{% include "c08res/per_type/" ~ T.short_name ~ ".inc" ignore missing %}\n'
+    '{% set c08_name = "c08res/by_" ~ "variable.inc" %}{% include c08_name %}\n'
+    '{% include ["c08res/absent.inc", "c08res/list_second.inc"] %}\n'
+    '{% import "c08res/macros.mac" as c08m %}{{ c08m.hello() }}\n'
+    '{% from "c08res/more/macros2.mac" import greet %}{{ greet() }}\n'
+)
+# path under the template directory -> (text, how it is reached)
+TPL_RESOURCES = {
+    "c08res/literal.inc": ('C08RES literal\n{% include "c08res/deep/er/nested.inc" %}\n', "literal_include"),
+    "c08res/deep/er/nested.inc": ("C08RES nested\n", "include_from_a_resource"),
+    "c08res/per_type/S.inc": ("C08RES for type S\n", "computed_name_T_short_name"),  # flat set
+    "c08res/per_type/A.inc": ("C08RES for type A\n", "computed_name_T_short_name"),  # nested set
+    "c08res/per_type/Msg.inc": ("C08RES for type Msg\n", "computed_name_T_short_name"),  # lookup set
+    "c08res/per_type/Nobody.inc": ("C08RES for no type\n", "never_used"),
+    "c08res/by_variable.inc": ("C08RES by variable\n", "computed_name_variable"),
+    "c08res/list_second.inc": ("C08RES second of a list\n", "list_form_include"),
+    "c08res/macros.mac": ("{% macro hello() %}C08RES imported macro{% endmacro %}\n", "import"),
+    "c08res/more/macros2.mac": ("{% macro greet() %}C08RES from-imported macro{% endmacro %}\n", "from_import"),
+    "c08res/unused.inc": ("C08RES unused\n", "never_used"),
+}
+# The support generator renders without T: the same, with names computed from a variable only.  Appended to every
+# template of a user --support-templates directory.
+STPL_SNIPPET = (
+    "\n{#- C08: resources of a user support template directory -#}\n"
+    '{% include "c08sres/literal.inc" %}\n'
+    '{% set c08_name = "c08sres/by_" ~ "variable.inc" %}{% include c08_name %}\n'
+    '{% include ["c08sres/absent.inc", "c08sres/list_second.inc"] %}\n'
+    '{% import "c08sres/macros.mac" as c08m %}{{ c08m.hello() }}\n'
+)
+STPL_RESOURCES = {
+    "c08sres/literal.inc": ('C08SRES literal\n{% include "c08sres/deep/nested.inc" %}\n', "literal_include"),
+    "c08sres/deep/nested.inc": ("C08SRES nested\n", "include_from_a_resource"),
+    "c08sres/by_variable.inc": ("C08SRES by variable\n", "computed_name_variable"),
+    "c08sres/list_second.inc": ("C08SRES second of a list\n", "list_form_include"),
+    "c08sres/macros.mac": ("{% macro hello() %}C08SRES imported macro{% endmacro %}\n", "import"),
+    "c08sres/unused.inc": ("C08SRES unused\n", "never_used"),
+}
+REACH = {"tpl/" + k: v[1] for k, v in TPL_RESOURCES.items()}
+REACH.update({"stpl/" + k: v[1] for k, v in STPL_RESOURCES.items()})
+# A template that renders NOTHING for some types (minor version 1: X.1.1 / B.1.1): the real run and the listing must
+# still agree on the output file.  No trailing newline (keep_trailing_newline would render it).
+SILENT_WRAPPER = '{%- if T.version.minor != 1 -%}{% include "c08_orig_DelimitedType.j2" %}{%- endif -%}'
 
 MODES = [
     ("list-outputs", ["--list-outputs"]),
@@ -300,8 +354,18 @@ def build_sandbox(c: dict, sb: pathlib.Path) -> None:
         if c["lang"] in ("c", "cpp"):
             # the built-in C/C++ template sets have no namespace template; a user set may have one
             (sb / "tpl" / "Namespace.j2").write_text(NAMESPACE_TEMPLATE_FOR_C)
+        host = sb / "tpl" / TPL_HOST[c["lang"]]
+        host.write_text(host.read_text(encoding="utf-8") + TPL_SNIPPET, encoding="utf-8")
+        gen.write_ns(sb / "tpl", {k: v[0] for k, v in TPL_RESOURCES.items()})
+        (sb / "tpl" / "DelimitedType.j2").rename(sb / "tpl" / "c08_orig_DelimitedType.j2")
+        (sb / "tpl" / "DelimitedType.j2").write_text(SILENT_WRAPPER)
     if c["tpl"] == "user+support":
         _copy_resources(_lang_dir(c["lang"]) / "support", sb / "stpl")
+        hosts = sorted((sb / "stpl").glob("*.j2"))
+        for host in hosts:
+            host.write_text(host.read_text(encoding="utf-8") + STPL_SNIPPET, encoding="utf-8")
+        if hosts:
+            gen.write_ns(sb / "stpl", {k: v[0] for k, v in STPL_RESOURCES.items()})
 
 
 def build_argv(c: dict, sb: pathlib.Path, flags: typing.Sequence[str]) -> typing.List[str]:
@@ -649,6 +713,12 @@ def evaluate(c: dict, sb: pathlib.Path, only_subject: typing.Optional[str] = Non
             count("not_loaded:" + s.what + ":" + s.origin)
             count("no_influence_shown:" + s.what + ":" + s.origin)
             continue
+        if s.label in REACH and li.rc == 0 and key in listed_inputs and stable_hash("power:" + cid + s.label) % 4:
+            # A file that --list-inputs already names cannot violate oracle 3; its mutant run only shows that the
+            # mutation has power.  For the added resource files that evidence is collected in a fixed quarter of
+            # the configurations (a function of the configuration and the file only).
+            count("listed_resource_mutant_skipped")
+            continue
         if s.what.endswith("_dsdl"):
             original = s.path.read_text()
             if SLOT not in original:
@@ -691,6 +761,8 @@ def evaluate(c: dict, sb: pathlib.Path, only_subject: typing.Optional[str] = Non
             continue
         res["influences"] += 1
         count("influence_shown:" + s.what + ":" + s.origin)
+        if s.label in REACH:
+            count("influence_shown_reach:" + s.label.split("/")[0] + ":" + REACH[s.label])
         if li.rc != 0:
             continue
         if key in listed_inputs:
@@ -700,6 +772,8 @@ def evaluate(c: dict, sb: pathlib.Path, only_subject: typing.Optional[str] = Non
         if not s.what.endswith("_dsdl"):
             sig["origin"] = "user_dir" if s.origin == "sandbox" else "builtin"
             sig["suffix"] = s.path.suffix
+            if s.label in REACH:
+                sig["reach"] = REACH[s.label]
         report(
             sig,
             f"{s.label} changes the generated output ({influence}) but --list-inputs does not name it  [{cid}]",
@@ -835,6 +909,10 @@ def run(ctx: Ctx) -> int:
         for need in ("root_dsdl:sandbox", "lookup_dsdl:sandbox", "template:sandbox", "template:builtin", "support_template:sandbox", "support_template:builtin"):
             if ctx.stats.get("influence_shown:" + need, 0) == 0:
                 raise HarnessError(f"vacuous exploration: no mutation of a {need} file ever changed the output")
+        for label, reach in sorted(REACH.items()):
+            need = "influence_shown_reach:" + label.split("/")[0] + ":" + reach
+            if reach != "never_used" and ctx.stats.get(need, 0) == 0:
+                raise HarnessError(f"vacuous exploration: no mutation of a resource reached by {need} changed the output")
         if ctx.stats.get("no_influence_shown:lookup_dsdl:sandbox", 0) == 0:
             raise HarnessError("vacuous exploration: the unused lookup file (negative control) was never exercised")
 
